@@ -99,3 +99,122 @@ Fixpoint no_adjacent_dstar_p (ps : list gpiece) : bool :=
   end.
 Definition glob_ok (ps : list gpiece) : bool :=
   forallb piece_ok ps && no_adjacent_dstar_p ps && negb (match ps with [] => true | _ => false end).
+
+(* ------------------------------------------------------------------ alternates
+   globset documentation: "`{a,b}` matches `a` or `b` where `a` and `b` are arbitrary glob patterns.
+   (N.B. Nesting `{...}` is not currently allowed.)"
+   So: an alternation may stand wherever an item of a component may stand; its alternatives are globs of the
+   alternate-free syntax above (a list of pieces), or empty; at least one alternative is written between the
+   braces (`{}` is the one empty alternative).  A ',' separates alternatives between braces only; outside
+   braces it is an ordinary character (AComma; between braces a literal comma is written `\,`).  The documented token tree of `{a,b,…}` is
+   Alternates [tokens of a; tokens of b; …] in the order written, the tokens of an alternative being those the
+   alternate-free reading assigns to it as a glob of its own ([glob_tokens]). *)
+Inductive aitem := AIt (i : gitem) | AComma | AAlt (bs : list (list gpiece)).
+Inductive apiece := APComp (its : list aitem) | APDStar.
+
+Fixpoint render_branches (bs : list (list gpiece)) : list N :=
+  match bs with
+  | [] => []
+  | b :: r => match r with
+              | [] => render_glob b
+              | _ => render_glob b ++ 44%N :: render_branches r
+              end
+  end.
+Definition render_aitem (i : aitem) : list N :=
+  match i with
+  | AIt i => render_item i
+  | AComma => [44%N]
+  | AAlt bs => 123%N :: render_branches bs ++ [125%N]
+  end.
+Definition render_acomp (its : list aitem) : list N := flat_map render_aitem its.
+Definition render_apiece (p : apiece) : list N :=
+  match p with APComp its => render_acomp its | APDStar => [42; 42]%N end.
+Fixpoint render_aglob (ps : list apiece) : list N :=
+  match ps with
+  | [] => []
+  | p :: r => match r with
+              | [] => render_apiece p
+              | _ => render_apiece p ++ 47%N :: render_aglob r
+              end
+  end.
+
+(* documented tokens, alternatives in the order written *)
+Definition aitem_tok (i : aitem) : token :=
+  match i with
+  | AIt i => item_tok i
+  | AComma => TLit 44
+  | AAlt bs => TAlt (map glob_tokens bs)
+  end.
+Definition acomp_toks (its : list aitem) : list token := map aitem_tok its.
+Fixpoint aafter_piece (ps : list apiece) : list token :=
+  match ps with
+  | [] => []
+  | APComp its :: r => TLit 47 :: acomp_toks its ++ aafter_piece r
+  | APDStar :: r =>
+    match r with
+    | [] => [TRecSuffix]
+    | APComp its :: r' => TRecZeroOrMore :: acomp_toks its ++ aafter_piece r'
+    | APDStar :: _ => []
+    end
+  end.
+Definition aglob_tokens (ps : list apiece) : list token :=
+  match ps with
+  | [] => []
+  | APComp its :: r => acomp_toks its ++ aafter_piece r
+  | APDStar :: r =>
+    match r with
+    | [] => [TRecPrefix]
+    | APComp its :: r' => TRecPrefix :: acomp_toks its ++ aafter_piece r'
+    | APDStar :: _ => []
+    end
+  end.
+
+(* the order in which the parser stores the alternatives of one Alternates token: `pop_alternate` pops the
+   stack, so the LAST alternative written comes first.  The documented tree is in the order written; the
+   parser's tree is this image of it (alternatives are alternate-free, one level is all there is).  The order
+   of the alternatives does not matter for matching (Proofs: tmatch_alt_order). *)
+Definition tok_parser_order (t : token) : token :=
+  match t with TAlt alts => TAlt (rev alts) | t => t end.
+Definition parser_order (ts : list token) : list token := map tok_parser_order ts.
+
+(* well-formedness.  An alternative is empty or a well-formed alternate-free glob other than the lone `**`:
+   the documentation defines `**` as a glob ("match everything"), but between braces the parser reads a lone
+   `**` as two `*` (see Props/C12.v parse_documented_syntax_alt_lone_dstar_refuted). *)
+Definition is_lone_dstar (b : list gpiece) : bool :=
+  match b with [PDStar] => true | _ => false end.
+Definition branch_ok (b : list gpiece) : bool :=
+  match b with [] => true | _ => glob_ok b && negb (is_lone_dstar b) end.
+Definition branch_ok_doc (b : list gpiece) : bool :=       (* what the documentation allows: lone `**` included *)
+  match b with [] => true | _ => glob_ok b end.
+Definition aitem_ok_with (bok : list gpiece -> bool) (i : aitem) : bool :=
+  match i with
+  | AIt i => item_ok i
+  | AComma => true
+  | AAlt bs => forallb bok bs && negb (match bs with [] => true | _ => false end)
+  end.
+Fixpoint no_adjacent_astar (its : list aitem) : bool :=
+  match its with
+  | AIt IStar :: ((AIt IStar :: _) as r) => false
+  | _ :: r => no_adjacent_astar r
+  | [] => true
+  end.
+Definition apiece_ok_with (bok : list gpiece -> bool) (p : apiece) : bool :=
+  match p with
+  | APComp its => forallb (aitem_ok_with bok) its && no_adjacent_astar its && negb (match its with [] => true | _ => false end)
+  | APDStar => true
+  end.
+Fixpoint no_adjacent_dstar_a (ps : list apiece) : bool :=
+  match ps with
+  | APDStar :: ((APDStar :: _) as r) => false
+  | _ :: r => no_adjacent_dstar_a r
+  | [] => true
+  end.
+Definition aglob_ok_with (bok : list gpiece -> bool) (ps : list apiece) : bool :=
+  forallb (apiece_ok_with bok) ps && no_adjacent_dstar_a ps && negb (match ps with [] => true | _ => false end).
+Definition aglob_ok : list apiece -> bool := aglob_ok_with branch_ok.
+Definition aglob_ok_doc : list apiece -> bool := aglob_ok_with branch_ok_doc.
+
+
+(* the alternate-free syntax is the sub-syntax without AComma/AAlt *)
+Definition piece_inj (p : gpiece) : apiece :=
+  match p with PComp its => APComp (map AIt its) | PDStar => APDStar end.
